@@ -1,7 +1,7 @@
 """C12 — symmetry, rigid-motion invariance, scaling (structural clauses)."""
 from . import scopes
 from ..core.report import DOMAIN_D
-from ..rules import frame, degree, mink, roles, affine, unpack
+from ..rules import frame, degree, mink, roles, affine, unpack, mirror, misc2
 from .common import e2
 
 
@@ -27,4 +27,9 @@ def run(idx, rep, tier):
     roles.r_role(idx, rep)
     roles.r_roleagree(idx, rep)
     affine.r_originfree(idx, rep, ["distance3d.containment_test", "distance3d.containment", "distance3d.mesh", "distance3d.geometry", "distance3d.colliders"] + [x.name for x in idx.lib_modules() if x.name.startswith("distance3d.distance")], floor=100)
+    mirror.r_mirror(idx, rep)
+    mirror.r_casedispatch(idx, rep)
+    mirror.r_tournament(idx, rep)
+    mirror.r_boxface(idx, rep)
+    misc2.r_dupcond(idx, rep, [m.name for m in idx.lib_modules()], floor=3)
     unpack.r_unpack(idx, rep, floor=88)
